@@ -55,7 +55,7 @@ class Case final : public sim::CaseBase {
     submitters = 1 + static_cast<int>(g.Draw(4));
     workers = 1 + g.Draw(3);
     for (int s = 0; s < submitters; ++s) {
-      const int m = 1 + static_cast<int>(g.Draw(6));
+      const int m = 1 + static_cast<int>(g.Draw(sim::Thorough() ? 10 : 6));
       for (int k = 0; k < m; ++k) {
         JobState j;
         j.submitter = s;
